@@ -1990,9 +1990,68 @@ class Interp:
         self.loop_assigned_cache[key] = ids
         return ids
 
+    def counted_advance(self, n, st, fidx):
+        """Loop summary: `for _ in 0..k { <cursor>.advance(); }` has the effect of `<cursor>.advance_by(k)`
+        (both stop at the end of the input).  Returns the outcomes of that call, or None if `n` is not
+        exactly this idiom (unused loop variable, range from 0, a body that is the single advance)."""
+        if n.get("src") != "ForLoop":
+            return None
+        stmts = n["body"].get("stmts") or []
+        if len(stmts) != 1 or n["body"].get("expr") is not None:
+            return None
+        m = stmts[0].get("e") or {}
+        if m.get("k") != "Match" or m.get("src") != "ForLoopDesugar" or len(m.get("arms", [])) != 2:
+            return None
+        sc = m["scrut"]
+        if not (sc.get("k") == "Call" and sc.get("def") == "std::iter::Iterator::next" and len(sc["args"]) == 1):
+            return None
+        a0 = strip_dt(sc["args"][0])
+        if a0.get("k") != "AddrOf" or strip_dt(a0["e"]).get("k") != "Path":
+            return None
+        loc = strip_dt(a0["e"])["res"].get("local")
+        fr = st.frames[fidx] if fidx < len(st.frames) else {}
+        it = fr.get(loc)
+        if not (isinstance(it, Term) and it.op in ("iter_rest", "iter_nonempty") and it.args
+                and isinstance(it.args[0], Term) and it.args[0].op == "range"):
+            return None
+        lo, hi = it.args[0].args
+        if not (isinstance(lo, Const) and lo.v == 0):
+            return None
+        some_arm = [a for a in m["arms"] if (a["pat"].get("res") or {}).get("def", "").endswith("Some")]
+        if len(some_arm) != 1 or some_arm[0].get("guard") is not None:
+            return None
+        flds = some_arm[0]["pat"].get("fields") or []
+        if len(flds) != 1 or flds[0]["pat"].get("k") != "Wild":
+            return None
+        body = strip_dt(some_arm[0]["body"])
+        if body.get("k") == "BlockExpr":
+            b = body["b"]
+            if b.get("expr") is not None or len(b.get("stmts") or []) != 1:
+                return None
+            s0 = b["stmts"][0]
+            if s0.get("k") not in ("Semi", "Expr"):
+                return None
+            body = strip_dt(s0["e"])
+        if not (body.get("k") == "MethodCall" and F.norm(body.get("def") or "") == "cursor::Cursor::advance"
+                and not body.get("args")):
+            return None
+        from . import lea_prims
+        res = []
+        for o in self.ev(body["recv"], st, fidx):
+            if o.kind != "val":
+                res.append(o)
+                continue
+            r = lea_prims.c_advance_by(self, "cursor::Cursor::advance_by", [o.val, hi], o.st, body, fidx)
+            res.extend(r)
+        return res
+
     def ev_Loop(self, n, st, fidx):
         res = []
         lid = n.get("id")
+        if not self.in_probe:
+            summ = self.counted_advance(n, st, fidx)
+            if summ is not None:
+                return summ
         l0 = len(st.events)
         self.emit(st, "loop_enter", n, loop=lid)
         entry_main_pos = st.cursors["main"].pos
